@@ -329,7 +329,8 @@ theorem graphProg_error_of_body (o : Opts) (d : Nat) (m : ModelP) (fn : String) 
     ∃ e, graphProg o d m fn indent st = .error e := by
   unfold graphProg
   obtain ⟨e, he⟩ := h (translateNode o m.opsets d indent)
-    { st with remaps := [] :: st.remaps, namesRead := m.graph.outputs ++ namesReadBy d m.graph.nodes } (fun _ _ => rfl)
+    { st with remaps := [] :: st.remaps, namesRead := m.graph.outputs ++ namesReadBy d m.graph.nodes,
+              constants := [] } (fun _ _ => rfl)
   simp only [he]
   exact ⟨e, rfl⟩
 
@@ -814,5 +815,34 @@ theorem outNames_uniq (o : Opts) (hr : o.rename = false) :
 
 
 theorem plain_empty : Plain ({} : St) := ⟨rfl, fun _ => rfl, rfl, rfl⟩
+
+
+/-! ## renamer requests never touch the table of inlined constants -/
+
+theorem newRenamer_constants (o : Opts) (st : St) (v : String) : (newRenamer o st v).2.constants = st.constants := by
+  unfold newRenamer shortName uniqueName
+  cases o.rename <;> simp
+
+theorem translateVar_constants (o : Opts) (st : St) (v : String) : (translateVar o st v).2.constants = st.constants := by
+  unfold translateVar
+  split
+  · rfl
+  · split
+    · rfl
+    · exact newRenamer_constants o st v
+
+theorem translateVarRef_constants (o : Opts) (st : St) (v : String) :
+    (translateVarRef o st v).2.constants = st.constants := by
+  unfold translateVarRef
+  split
+  · rfl
+  · exact translateVar_constants o st v
+
+theorem translateVars_constants (o : Opts) : ∀ (vs : List String) (st : St),
+    (translateVars o st vs).2.constants = st.constants
+  | [], _ => rfl
+  | v :: vs, st => by
+    simp only [translateVars]
+    rw [translateVars_constants o vs, translateVar_constants]
 
 end OV.C13
